@@ -286,6 +286,33 @@ def compile_purity_cases():
                 diffs = [k for k, (x, y) in enumerate(zip(before, after)) if x != y]
                 bad.append({"inner": jsonable(ip_), "outer": what, "problem": f"the inner relation changed (fingerprint fields {diffs}) "
                             "when a relation built on top of it was compiled / executed"})
+    # iteration engine: a materialization with loose static bounds (a selection / deduplication below it), held by the caller
+    # together with relations built on it, is executed directly and through a Processor: its declared bounds, and those of
+    # everything built on it, stay what they were
+    k1, k2 = enc.K(1), enc.K(2)
+    lf = ("leaf", 1, ("it", 0), [k1, k2], [{k1: i, k2: i % 3} for i in range(6)], (6, 6))
+    for below in (("sel", ("cmp", "eq", ("ref", k2), ("lit", 0))), ("dedup",), ("slice", 1, 9)):
+        w = mp.World()
+        m = mp.build_impl(("mat", 61, ("un", below, mp.DEFAULT, lf)), w)
+        held = [m, m[1:4], mp.apply_un(m, ("proj", [k1]), mp.DEFAULT, w), m.chain(m)]
+        before = [fingerprint(r) for r in held]
+        n += 1
+        for how in ("execute", "process"):
+            try:
+                if how == "execute":
+                    list(held[1].engine.execute(held[1]))
+                else:
+                    mp.execute(w, held[2])
+            except Exception:  # noqa: BLE001
+                pass
+            after = [fingerprint(r) for r in held]
+            for k, (x, y) in enumerate(zip(before, after)):
+                if x != y:
+                    diffs = [i for i, (u, v) in enumerate(zip(x, y)) if u != v]
+                    bad.append({"inner": f"materialization over {below}", "outer": str(held[k]), "problem": f"after {how}, a relation obtained earlier changed (fingerprint fields {diffs}: "
+                                f"bounds {x[4:6]} -> {y[4:6]})"})
+                    before = after
+                    break
     return n, bad
 
 
